@@ -6,6 +6,10 @@
 (* Each Read delivers 1..MaxChunk bytes (but never more than asked for), or - once the stream is       *)
 (* exhausted or the scripted failure offset is reached - the failure: "eof" or "err".                  *)
 (* HEADERFULL = FALSE is the pinned header read (a single Read, fewer than 8 bytes is an error).       *)
+(* Failure kind "eofd": the transport reports the end of the stream together with the last bytes it    *)
+(* delivers (an io.Reader may).  EOFOK = TRUE is the repaired body loop (a complete packet is a packet,   *)
+(* the next read reports the end); EOFOK = FALSE is the pinned one: the complete packet is passed on,     *)
+(* but the reader goroutine then ends without queueing an error ("dead").                                  *)
 (* A stream element b < 0 is a packet whose header announces the length 8 + b, less than the header     *)
 (* itself (C10: all header values incl. length < 8); it occupies its 8 header bytes.  CHECKLEN = TRUE   *)
 (* is the repaired reader, which rejects such a header; CHECKLEN = FALSE is the pinned one: the body    *)
@@ -14,7 +18,7 @@
 (* reads for ever ("spin": neither a packet nor an error).                                               *)
 EXTENDS Integers, Sequences, TLC
 CONSTANTS Streams,      \* set of streams: sequences of body lengths
-          MaxChunk, HEADERFULL, FailKinds, CHECKLEN, WRAP
+          MaxChunk, HEADERFULL, FailKinds, CHECKLEN, WRAP, EOFOK
 HDR == 8
 VARIABLES stream, failAt, failKind, pos, pc, need, got, hdrGot, out, errs
 vars == <<stream, failAt, failKind, pos, pc, need, got, hdrGot, out, errs>>
@@ -46,7 +50,8 @@ ReadBody(n) ==
     /\ pc = "body" /\ errs = 0 /\ Avail > 0 /\ n \in 1..MaxChunk /\ n <= Avail /\ n <= need - got
     /\ pos' = pos + n
     /\ IF got + n = need
-       THEN /\ out' = Append(out, PktAt(pos + n - need - HDR, 1)) /\ pc' = "hdr" /\ got' = 0 /\ UNCHANGED need
+       THEN /\ out' = Append(out, PktAt(pos + n - need - HDR, 1)) /\ got' = 0 /\ UNCHANGED need
+            /\ pc' = IF failKind = "eofd" /\ pos + n = Limit /\ ~EOFOK THEN "dead" ELSE "hdr"
        ELSE got' = got + n /\ UNCHANGED <<out, pc, need>>
     /\ UNCHANGED <<stream, failAt, failKind, hdrGot, errs>>
 \* pinned reader behind a header with a length below 8: the wrapped body size is read from whatever follows;
@@ -58,7 +63,7 @@ ReadBadBody(n) ==
     /\ UNCHANGED <<stream, failAt, failKind, hdrGot, errs, out, need>>
 \* the transport has nothing more: the failure surfaces as an error (EOF in a body only after the read timeout)
 Fail == /\ errs = 0 /\ Avail = 0 /\ (failKind # "none" \/ pos = Total(stream, Len(stream)))
-        /\ pc # "spin"                       \* a spinning reader issues zero-length reads, which never fail
+        /\ pc \notin {"spin", "dead"}        \* a spinning reader issues zero-length reads, which never fail; a dead one none
         /\ errs' = 1 /\ UNCHANGED <<stream, failAt, failKind, pos, pc, need, got, hdrGot, out>>
 Next == (\E n \in 1..MaxChunk : ReadHdr(n) \/ ReadBody(n) \/ ReadBadBody(n)) \/ Fail
 Spec == Init /\ [][Next]_vars /\ WF_vars(Next)
